@@ -442,7 +442,7 @@ def oracle_created(case):
         o = out.split()
         if line.startswith("wevents") and len(o) >= 3:
             got = 0 if o[2] == "-" else len(o[2].split(","))
-            if got < n and "canceled" not in out and "compact=1" not in out:
+            if got < n and "canceled=1" not in out and "compact=1" not in out:
                 return ("line %d: a watch from `now` was acknowledged (Created) before %d acknowledged writes, its stream is open, "
                         "and it delivered %d of them: %s" % (i + 1, n, got, out[:300]), "created-before-subscribed")
     return None
